@@ -546,6 +546,16 @@ func (w *vfWorld) prepareStep(st vfStep) *vfPrepared {
 			keyName = "user_rsa2048_1"
 		}
 		key := vfKey(keyName)
+		if st.User == "@jar" {
+			// whoever the cookie now in this session's jar speaks for (the client reads it off the cookie)
+			st.User = ""
+			if pl := vfJWTPayload(s.Cookies[authCookieName]); pl != nil {
+				st.User = jstr(pl, "sub")
+			}
+			if st.User == "" {
+				return nil
+			}
+		}
 		path := "/certgen/" + st.User
 		if typ != "" {
 			path += "?type=" + url.QueryEscape(typ)
